@@ -56,11 +56,13 @@ THEOREMS = [
     "Jinns.LossTerms.dynTerm_add_vec",
     "Jinns.LossTerms.dynTerm_perm",
     "Jinns.LossTerms.dynTerm_halves",
+    "Jinns.LossTerms.holds_closed_form_eq_dynTerm",
 ]
 RULE = ("cases = (loss kind, dimension, network, equation with 1..3 residual components, weights, subset of "
-        "configured terms, batch); non-trivial = the dynamic term is configured, its value is non-zero, the per-point "
-        "weighted squared residuals are not all equal (so a wrong axis, a wrong mean or a permutation-sensitive "
-        "aggregation changes the value) and at least one other term is configured and non-zero; distinct = distinct case dicts")
+        "configured terms, batch); non-trivial = the dynamic term is configured, non-zero, with per-point weighted "
+        "squared residuals that are not all equal (so a wrong axis, a wrong mean or a permutation-sensitive "
+        "aggregation changes the value), or at least two returned terms are non-zero (so a term dropped from the "
+        "total changes it); distinct = distinct case dicts")
 ASSUMPTIONS = [
     "the residual of the user's equation at a point is a function of that point and of the parameters (oracle "
     "table computed with exact polynomial arithmetic; JAX AD of a polynomial network is exact)",
@@ -966,19 +968,20 @@ def judge(case, obs, answer):
 
 
 def nontrivial(case, obs):
-    if "error" in obs["base"] or not case.get("dyn"):
+    if "error" in obs["base"]:
+        return False
+    terms = obs["base"]["terms"]
+    if sum(1 for v in terms.values() if F(v) != 0) >= 2:
+        return True
+    if not case.get("dyn") or F(terms["dyn_loss"]) == 0:
         return False
     req = obs["req"]["obs"]["dyn_obs"]
-    terms = obs["base"]["terms"]
-    if F(terms["dyn_loss"]) == 0:
-        return False
     w = req["w"]
     rows = []
     for r in req["residuals"]:
         ws = [F(w["scalar"])] * len(r) if "scalar" in w else [F(x) for x in w["vec"]]
         rows.append(sum(a * F(x) ** 2 for a, x in zip(ws, r)))
-    others = [k for k, v in terms.items() if k != "dyn_loss" and F(v) != 0]
-    return len(set(rows)) > 1 and len(others) >= 1
+    return len(set(rows)) > 1
 
 
 def tags(case, obs):
